@@ -424,7 +424,13 @@ def contract(case, fp, addconv):
     for fo in outs:
         f = fo["f"]
         getattr_[f["attname"]] = fo["value"] if fo["value"] is not None else fo["deferred"]
-    return {"o": o, "errs": errs, "result": result, "mapping": mapping, "attrs": attrs, "getattr": getattr_}
+    # `key in inst` (Schema.__contains__): any accepted key of a field whose value is in the mapping
+    contains = {}
+    for k, _ in data:
+        acc = [f for f in fields if nk(f, k) in f["acc"]]
+        contains[k] = (acc[0]["name"] in mapping) if acc else (k in mapping)
+    return {"o": o, "errs": errs, "result": result, "mapping": mapping, "attrs": attrs, "getattr": getattr_,
+            "contains": contains}
 
 
 def judge(out, want, what="instance"):
@@ -445,6 +451,8 @@ def judge(out, want, what="instance"):
             return f"{what}: attribute access gives {ok['getattr']} but the field rules prescribe {want['getattr']}"
         if not ok.get("fresh", True):
             return f"{what}: a mutable default was stored without being copied"
+        if "contains" in ok and ok["contains"] != want["contains"]:
+            return f"{what}: `key in instance` gives {ok['contains']} but the field rules prescribe {want['contains']}"
         return None
     if not errs:
         return f"{what}: parsing failed with {out} although the input satisfies the contract"
@@ -776,6 +784,13 @@ def gen_case(rng: random.Random, maxfields=4):
             names = [t["attname"], t.get("alias") or t["attname"]] + list(t["alias_from"])
             fd["deps"] = [rng.choice(names)]
     copts = gen_opts(rng, False)
+    if rng.random() < 0.08:
+        # strategy chosen by assign_search_strategy: plain fields, data_first_search=None
+        for fd in fields:
+            if rng.random() < 0.8:
+                fd["alias"], fd["alias_from"], fd["ci"] = None, [], None
+        copts["data_first_search"] = None
+        copts.pop("case_insensitive", None)
     cd = {"fields": fields, "opts": copts}
     if copts.get("addition") is True and rng.random() < 0.5:
         cd["addition_type"] = rng.choice(["int", "str"])
@@ -907,6 +922,9 @@ class C05(Check):
         if not mo["wf"]:
             return None          # outside the modelled fragment (counted in the distribution)
         keys = mo["_keys"]
+        for k in keys:           # the theorems' hypothesis LowerLaws, on the keys of this case
+            if k.lower().lower() != k.lower() or (k.islower() and k.lower() != k):
+                return f"LowerLaws does not hold for key {k!r}"
         for a, b in (("out", "model"), ("df", "df"), ("ff", "ff")):
             m = unmodel_outcome(mo[b], keys, case)
             if not same_outcome(io[a], m):
